@@ -74,15 +74,7 @@ func checkC02(w *World, r *Report) {
 	tr := w.Tracer()
 
 	// the amount: value added to AmountMinted
-	var amount ssa.Value
-	var amStore *ssa.Store
-	for _, fs := range FieldStores(mint) {
-		if fs.Field == "AmountMinted" && namedIs(fs.Struct, "x/cfeminter/types", "MinterState") {
-			if inc, ok := incrementOf(fs); ok {
-				amount, amStore = inc, fs.Store
-			}
-		}
-	}
+	amount, amStore, _ := mintedIncrement(w, mint)
 	if amount == nil {
 		r.Bad("C02.fromscratch", "mint: amount added to AmountMinted", w.Pos(mint.Pos()), "no update AmountMinted = AmountMinted.Add(amount) found")
 		return
@@ -197,18 +189,7 @@ func checkC02(w *World, r *Report) {
 	if histCall == nil || recCall == nil || len(persists) == 0 {
 		r.Bad("C02.boundaries", "hand-over: history, successor and persist calls", w.Pos(mint.Pos()), fmt.Sprintf("the minting routine (with its helpers) has %d history writes, %d recursions into the successor, %d state persists: expected exactly one history write and one recursion, and at least one persist", len(hists), len(recs), len(persists)))
 	} else {
-		term := func(v ssa.Value) string {
-			if isBlockTime(v) {
-				return "now"
-			}
-			if _, ok := derefOfPtrField(v, "EndTime"); ok {
-				return "end"
-			}
-			if loadOfField(v, "EndTime", nil) {
-				return "endptr"
-			}
-			return ""
-		}
+		term := handoverTerm(w.Tracer())
 		type scen struct {
 			name   string
 			isNil  bool
@@ -637,14 +618,7 @@ func mintTotalRule(w *World, r *Report, rule string) {
 		r.Unk("infra.anchor", "x/cfeminter/keeper.Keeper.mint", "", "anchor not found")
 		return
 	}
-	var amount ssa.Value
-	for _, fs := range FieldStores(mint) {
-		if fs.Field == "AmountMinted" && namedIs(fs.Struct, "x/cfeminter/types", "MinterState") {
-			if inc, ok := incrementOf(fs); ok {
-				amount = inc
-			}
-		}
-	}
+	amount, _, _ := mintedIncrement(w, mint)
 	var rec *ssa.Call
 	nrec := 0
 	for _, s := range cg.Sites[mint] {
@@ -682,18 +656,7 @@ func mintTotalRule(w *World, r *Report, rule string) {
 		}
 		return ""
 	}
-	term := func(v ssa.Value) string {
-		if isBlockTime(v) {
-			return "now"
-		}
-		if _, ok := derefOfPtrField(v, "EndTime"); ok {
-			return "end"
-		}
-		if loadOfField(v, "EndTime", nil) {
-			return "endptr"
-		}
-		return ""
-	}
+	term := handoverTerm(w.Tracer())
 	nonNeg := nonNegEdges(mint, amount)
 	ok, why, n := true, "", 0
 	for _, sc := range []struct {
@@ -814,7 +777,20 @@ func mintHandOverAt(w *World, s int) (handover bool, decided bool) {
 	if len(hists) != 1 || len(recs) != 1 {
 		return false, false
 	}
-	term := func(v ssa.Value) string {
+	term := handoverTerm(w.Tracer())
+	eval := OrderEval(term, twoTermCmp("now", "end", s), func(t string) (bool, bool) { return false, t == "endptr" })
+	h, rc := LiveEff(mint, eval, hists[0]), LiveEff(mint, eval, recs[0])
+	if h != rc {
+		return false, false
+	}
+	return h, true
+}
+
+// handoverTerm names the operands of the hand-over decision: the block time (the call itself, or a value that holds
+// nothing but the block time where it is read - e.g. state.LastMintBlockTime right after it was set), the end of the
+// current period and the pointer to it.
+func handoverTerm(tr *Tracer) func(ssa.Value) string {
+	return func(v ssa.Value) string {
 		if isBlockTime(v) {
 			return "now"
 		}
@@ -824,12 +800,9 @@ func mintHandOverAt(w *World, s int) (handover bool, decided bool) {
 		if loadOfField(v, "EndTime", nil) {
 			return "endptr"
 		}
+		if holdsBlockTime(tr, v) {
+			return "now"
+		}
 		return ""
 	}
-	eval := OrderEval(term, twoTermCmp("now", "end", s), func(t string) (bool, bool) { return false, t == "endptr" })
-	h, rc := LiveEff(mint, eval, hists[0]), LiveEff(mint, eval, recs[0])
-	if h != rc {
-		return false, false
-	}
-	return h, true
 }
